@@ -603,6 +603,8 @@ func (c *Checker) newMethodChecker(
 		typeDefinitionChecks: newTypeDefinitionChecks(),
 		methodCache:          concurrent.NewSlice[*types.Method](),
 		threadPool:           threadPool,
+
+		failedBeforeMethodBodies: c.failedBeforeMethodBodies,
 	}
 	checker.compiler = compiler.CreateCompiler(funcName, c.compiler, checker, loc, c.Errors, c.HasAdditionalAbortChecks())
 
@@ -653,6 +655,7 @@ func (c *Checker) registerMethodBodyCheck(method *types.Method, node *ast.Method
 var MethodCheckConcurrencyLimit = 100
 
 func (c *Checker) checkMethodBodies() {
+	c.failedBeforeMethodBodies = c.Errors.IsFailure()
 	concurrent.Foreach(
 		MethodCheckConcurrencyLimit,
 		c.methodBodyChecks,
